@@ -53,7 +53,7 @@ BATCH = 200
 API_CASE_TIMEOUT_S = 40
 SCALE = float(os.environ.get("VERIF_C08_SCALE", "1"))        # development only: scales all case counts
 MAX_SEGMENTS = 14
-MAX_CRASH_SEGMENTS = 3
+MAX_CRASH_SEGMENTS = int(os.environ.get("VERIF_C08_CRASH_SEGMENTS", "3"))
 
 SMALL_DB = os.path.join(lib.VERIF, "corpus", "small.dat")
 
@@ -196,7 +196,7 @@ def fuzz_job(ctx, target, runs, tag, seeded=True):
         logp = os.path.join(job, "log.%d" % seg)
         cmd = [bin_path(target), "-seed=%d" % (seed0 + seg * 7919 + 1), "-runs=%d" % remaining, "-detect_leaks=0", "-rss_limit_mb=4096",
                "-timeout=%d" % FUZZ_TIMEOUT_S.get(ctx.tier, 25), "-artifact_prefix=" + art + "/", "-dict=" + dict_path,
-               "-max_len=%d" % MAX_LEN[target], "-print_final_stats=1", "-reload=0", corpus]
+               "-max_len=%d" % MAX_LEN[target], "-print_final_stats=1", "-reload=0", "-entropic=0", corpus]
         with open(logp, "wb") as lg:
             p = subprocess.Popen(cmd, stdout=subprocess.DEVNULL, stderr=lg, env=target_env(cwd, stats=stats_path), cwd=job)
             while p.poll() is None:
@@ -242,25 +242,28 @@ def fuzz_job(ctx, target, runs, tag, seeded=True):
             if crash_segs >= MAX_CRASH_SEGMENTS:
                 break
     wall = time.time() - t_start
+    cpu_s = tot.get("cpu_ms_process", 0) / 1000.0
     calls = tot.get("calls_ok", 0) + tot.get("calls_failed", 0)
     short = "run" if target == "fuzz_run" else "db"
     for k, v in tot.items():
-        if k.startswith(("class_", "mode_", "skipped_", "probes_", "follow_", "trap_")):
+        if k.startswith(("class_", "mode_", "skipped_", "probes_", "follow_", "trap_", "known_ub_", "slow_")):
             ctx.event("A:%s:%s" % (short, k), v)
     ctx.event("A:%s:calls_failed" % short, tot.get("calls_failed", 0))
     ctx.event("A:%s:calls_ok" % short, tot.get("calls_ok", 0))
     ctx.evaluations += calls
     ctx.nt.update("A%s" % h for h in hashes)
-    info.update({"execs": tot.get("execs", 0), "oracle_calls": calls, "wall_s": round(wall, 1), "exec_per_s": round(tot.get("execs", 0) / max(wall, 1e-3), 1),
+    info.update({"execs": tot.get("execs", 0), "oracle_calls": calls, "wall_s": round(wall, 1), "cpu_s": round(cpu_s, 1),
+                 "exec_per_cpu_s": round(tot.get("execs", 0) / max(cpu_s, 1e-3), 1), "exec_per_wall_s": round(tot.get("execs", 0) / max(wall, 1e-3), 1),
                  "nontrivial_distinct": len(hashes), "runs_left": max(remaining, 0)})
     if last_cov:
         info.update({"cov_edges": last_cov[0], "features": last_cov[1], "corpus_units": last_cov[2]})
     ctx.extra.setdefault("fuzz_jobs", []).append(info)
-    for k in ("fuzz_execs", "fuzz_oracle_calls", "fuzz_core_seconds", "fuzz_timeouts", "fuzz_ooms", "fuzz_crash_artifacts"):
+    for k in ("fuzz_execs", "fuzz_oracle_calls", "fuzz_wall_seconds_sum", "fuzz_cpu_seconds", "fuzz_timeouts", "fuzz_ooms", "fuzz_crash_artifacts"):
         ctx.extra.setdefault(k, 0)
     ctx.extra["fuzz_execs"] += tot.get("execs", 0)
     ctx.extra["fuzz_oracle_calls"] += calls
-    ctx.extra["fuzz_core_seconds"] += round(wall, 1)
+    ctx.extra["fuzz_wall_seconds_sum"] += round(wall, 1)
+    ctx.extra["fuzz_cpu_seconds"] += round(cpu_s, 1)
     ctx.extra["fuzz_timeouts"] += info["timeouts"]
     ctx.extra["fuzz_ooms"] += info["ooms"]
     ctx.extra["fuzz_crash_artifacts"] += info["crash_artifacts"]
